@@ -7,8 +7,9 @@ import (
 	"io"
 
 	"github.com/dsnet/compress/bzip2"
-	"github.com/klauspost/pgzip"
+	kgzip "github.com/klauspost/compress/gzip"
 	"github.com/klauspost/compress/zstd"
+	"github.com/klauspost/pgzip"
 	"github.com/ulikunitz/xz"
 )
 
@@ -40,7 +41,7 @@ func Compress(codec string, data []byte) ([]byte, error) {
 			return nil, err
 		}
 	case "xz-multiblock": // one stream, many small blocks
-		cfg := xz.WriterConfig{BlockSize: 300}
+		cfg := xz.WriterConfig{BlockSize: 300, DictCap: 1 << 16} // small dictionary: decoders allocate it for every block
 		w, err := cfg.NewWriter(&b)
 		if err != nil {
 			return nil, err
@@ -50,7 +51,11 @@ func Compress(codec string, data []byte) ([]byte, error) {
 			return nil, err
 		}
 	case "xz":
-		w, err := xz.NewWriter(&b)
+		cfg := xz.WriterConfig{}
+		if len(data) < 1<<20 {
+			cfg.DictCap = 1 << 16 // the decoders allocate the dictionary: 8 MiB by default
+		}
+		w, err := cfg.NewWriter(&b)
 		if err != nil {
 			return nil, err
 		}
@@ -120,4 +125,36 @@ func decodesCleanly(codec string, data []byte) (ok bool) {
 	}
 	_, err = io.Copy(io.Discard, r)
 	return err == nil
+}
+
+// DecodeError reads data to the end with the decoding library the toolkit itself uses for that
+// codec and returns the first non-EOF error the library reports (nil when the library reads the
+// stream to a clean end of file): the errors that the input stream of a command delivers.
+func DecodeError(codec string, data []byte) (err error) {
+	defer func() {
+		if r := recover(); r != nil {
+			err = fmt.Errorf("decoder panic: %v", r)
+		}
+	}()
+	var r io.Reader
+	switch codec {
+	case "gzip":
+		r, err = kgzip.NewReader(bytes.NewReader(data))
+	case "bzip2":
+		r, err = bzip2.NewReader(bytes.NewReader(data), &bzip2.ReaderConfig{})
+	case "xz", "xz-multiblock":
+		r, err = xz.NewReader(bytes.NewReader(data))
+	case "zstd":
+		var d *zstd.Decoder
+		d, err = zstd.NewReader(bytes.NewReader(data))
+		if err == nil {
+			defer d.Close()
+		}
+		r = d
+	}
+	if err != nil {
+		return err
+	}
+	_, err = io.Copy(io.Discard, r)
+	return err
 }
